@@ -20,6 +20,24 @@ class Mode(StrEnum):
     SLOW = "slow"
 
 
+class Status(Enum):
+    """module-level namesake of Order.Status (a reconstruction by short name would silently pick this one)"""
+    NEW = "new"
+    DONE = 2
+
+
+class Order:
+    class Status(Enum):
+        """an enum declared inside another class (qualified name Order.Status)"""
+        NEW = "new"
+        DONE = 2
+
+    class Inner:
+        class Flag(IntEnum):
+            OFF = 0
+            ON = 1
+
+
 class HarnessError(Exception):
     """user-defined exception with positional args"""
 
